@@ -6,6 +6,8 @@ Require V.C09.Model V.C04.BufSafe V.C04.Model.
 Require V.C10.Model V.C10.ProofsContract V.C10.ProofsFuel.
 Require V.C01.Read V.C03.ProofsContract.
 Require V.C07.Model V.C07.ProofsStream V.C07.ProofsContract.
+Require V.C01.Write V.C01.Wf V.C02.Model V.C05.Model V.C05.Spec V.C06.Model V.C08.Model.
+Require V.C04.Pipe V.C04.ProofsPipe V.C04.ProofsText V.C04.ProofsTrip.
 Local Open Scope Z_scope.
 
 (* Index safety and termination of the read buffer for arbitrary bytes (NUL, CR/LF mixes, ...), arbitrary operation
@@ -76,3 +78,113 @@ Example c04_contract_discriminates :
   contract_ok [CInit false; CBegin; CRule 0 [1] [0]; CEnd] = false /\
   contract_ok [CInit false; CBegin; CWRule 0 [1] 1 [(2, -1)]; CEnd] = false.
 Proof. vm_compute. repeat split; reflexivity. Qed.
+
+(* ===================================== the lpconvert pipelines (V.C04.Pipe) =====================================
+   lpconvert = reader o consumer, composed from the separately validated models: aspif reader (C01/C03), smodels reader (C07, with the
+   special-predicate pass of C08 under -p), SmodelsConvert (C02) in front of SmodelsOutput (C05), AspifOutput (C01), AspifTextOutput (C06).
+   The consumers run incrementally: the output of a failing run is what was written before the failure; a consumer that refuses a call
+   ends the run with an error at the line where the reader delivered that call. *)
+
+(* The aspif reader re-stated with the line of every delivery (needed for the error line of a refusing consumer) delivers exactly the calls
+   of the reader model of C01/C03 with the same outcome - so every theorem about read_all (C01, C03, c04_aspif_contract) is about the
+   pipelines' reader. *)
+Theorem c04_aspif_lines_agree : forall t,
+  map fst (fst (V.C04.Pipe.read_all_ln t)) = fst (V.C01.Read.read_all t) /\
+  snd (V.C04.Pipe.read_all_ln t) = snd (V.C01.Read.read_all t).
+Proof. intro t. split; [exact (V.C04.ProofsPipe.read_all_ln_calls t) | exact (V.C04.ProofsPipe.read_all_ln_outcome t)]. Qed.
+Print Assumptions c04_aspif_lines_agree.
+
+(* The smodels reader with the special-predicate options (cEdge / cHeuristic / filter: lpconvert -p [-f]) walks the input exactly like C07's
+   reader - same outcome, same error line, for EVERY byte string - and IS C07's reader when neither conversion is enabled; so
+   c04_smodels_contract's no-fuel and error-line clauses hold for every option set. *)
+Theorem c04_smodels_options : forall (o : V.C07.Model.opts) (ro : V.C08.Model.ropts) (t : list Z),
+  snd (V.C04.Pipe.read_smodels_x o ro t) = snd (V.C07.Model.read_smodels o t) /\
+  (V.C08.Model.cE ro = false /\ V.C08.Model.cH ro = false -> V.C04.Pipe.read_smodels_x o ro t = V.C07.Model.read_smodels o t).
+Proof. intros o ro t. split; [exact (V.C04.ProofsPipe.read_smodels_x_outcome o ro t) | exact (V.C04.ProofsPipe.read_smodels_x_plain o ro t)]. Qed.
+Print Assumptions c04_smodels_options.
+
+(* Totality: for EVERY byte string the composed pipeline returns "accepted" or "error at a line" together with the bytes written - never a
+   fault or fuel outcome of one of the models - for the conversions to smodels and to aspif under every option set, and for the conversion
+   of smodels input to ground text without -p.  (The reader loops never run out of fuel: c03_line / c07_no_fuel_exhaustion; the converter,
+   SmodelsOutput and AspifOutput models are total functions without a fault outcome; C07's reader never delivers a theory atom, so the text
+   writer's endStep has nothing to print, and its sum -> count bound stays in range by c06_count_bound_range.)  The aspif reader never reports
+   the fuel marker line 0. *)
+Theorem c04_pipeline_total : forall (t : list Z),
+  (forall potassco, V.C04.ProofsPipe.no_fault (V.C04.Pipe.pipe_a2s potassco t)) /\
+  (forall potassco filter, V.C04.ProofsPipe.no_fault (V.C04.Pipe.pipe_s2a potassco filter t)) /\
+  (forall filter, V.C04.ProofsPipe.no_fault (V.C04.Pipe.pipe_s2t false filter t)) /\
+  snd (V.C04.Pipe.read_all_ln t) <> V.C01.Read.Err 0.
+Proof.
+  intro t. split; [intro p; exact (V.C04.ProofsPipe.a2s_total p t)|].
+  split; [intros p f; exact (V.C04.ProofsPipe.s2a_total p f t)|].
+  split; [intro f; exact (V.C04.ProofsText.s2t_total f t) | exact (V.C04.ProofsPipe.aspif_reader_line t)].
+Qed.
+Print Assumptions c04_pipeline_total.
+
+(* The remaining conversions to ground text.  PARTIAL: proved is that for aspif input the ONLY place where the text model can give up is
+   inside an endStep - its theory-term printer running out of fuel, which by c06_fuel_sufficient cannot happen for acyclic terms; the
+   repaired writer reports a cyclic theory term as an error, and the observation function treats the fault so - and that for smodels input
+   no reader loop runs out of fuel under any option set.  NOT proved: (a) that the fault happens ONLY for cyclic terms is C06's statement
+   in one direction (acyclic => no fault); (b) smodels input under -p: the calls of the reader with the special-predicate pass are
+   characterised in outcome and line (c04_smodels_options), not in kind and range, so fault-freedom of the text writer is not derived. *)
+Theorem c04_text_pipeline_total_partial : forall (t : list Z),
+  V.C04.ProofsPipe.fault_at_end (V.C04.Pipe.pipe_a2t t) /\
+  (forall potassco filter, V.C04.Pipe.pipe_s2t potassco filter t <> V.C04.Pipe.PFuel).
+Proof.
+  intro t. split; [exact (V.C04.ProofsPipe.a2t_total_partial t) | intros p f; exact (V.C04.ProofsPipe.s2t_no_fuel p f t)].
+Qed.
+Print Assumptions c04_text_pipeline_total_partial.
+
+(* lpconvert (without -p) on the smodels text of an in-fragment program p (C05's fragment, extensions off, any false atom f) accepts, writes
+   the aspif text of the normal form sm_norm f p, and the aspif reader (mode 0) reads that text back as sm_norm f p with weight-0 literals
+   dropped (c05_roundtrip o c01_roundtrip).  The range hypothesis is the aspif writer's documented one (C01/Wf.v: counts <= 2^32-1, names
+   <= 2^31-1 bytes, 32-bit integers), stated on the normal form: in_fragment alone bounds neither the length of a name nor the number of
+   minimize statements (whose running index becomes the priority).  That the normal form is a well-framed one-step program IS derived. *)
+Theorem c04_lpconvert_roundtrip_aspif : forall (filter : bool) (f : Z) (p : list call),
+  V.C05.Spec.in_fragment false f p = true ->
+  forallb V.C01.Wf.wf_call (V.C05.Spec.sm_norm f p) = true ->
+  exists t a, V.C05.Spec.sm_write false f p = Some t /\ V.C04.Pipe.pipe_s2a false filter t = V.C04.Pipe.POk a /\
+              V.C01.Read.read_all a = (V.C01.Wf.norm (V.C05.Spec.sm_norm f p), V.C01.Read.Ok).
+Proof. exact V.C04.ProofsTrip.roundtrip_aspif. Qed.
+Print Assumptions c04_lpconvert_roundtrip_aspif.
+
+(* lpconvert on the aspif text of a program p within the documented ranges (c01_roundtrip's hypotheses): -t writes exactly what
+   AspifTextOutput writes when handed norm p directly, and the smodels conversion what SmodelsConvert + SmodelsOutput write for norm p
+   (same class of outcome, same bytes; `strip` forgets only the error line): rendering a read-back program = rendering the original. *)
+Theorem c04_lpconvert_of_written_aspif : forall (p : list call), V.C01.Wf.wf_trace p -> forallb V.C01.Wf.wf_call p = true ->
+  V.C04.ProofsPipe.strip (V.C04.Pipe.pipe_a2t (V.C01.Write.write_prog p)) =
+    V.C04.ProofsPipe.strip (V.C04.Pipe.pipe V.C04.Pipe.step_text V.C06.Model.out V.C06.Model.init_st
+                                            (V.C04.Pipe.at_line 0 (V.C01.Wf.norm p)) V.C04.Pipe.ROk) /\
+  forall potassco,
+  V.C04.ProofsPipe.strip (V.C04.Pipe.pipe_a2s potassco (V.C01.Write.write_prog p)) =
+    V.C04.ProofsPipe.strip (V.C04.Pipe.pipe (V.C04.Pipe.step_conv potassco) V.C04.Pipe.c_out (V.C04.Pipe.conv0 potassco)
+                                            (V.C04.Pipe.at_line 0 (V.C01.Wf.norm p)) V.C04.Pipe.ROk).
+Proof.
+  intros p Ht Hc. split; [exact (V.C04.ProofsTrip.text_of_written p Ht Hc) | intro e; exact (V.C04.ProofsTrip.smodels_of_written e p Ht Hc)].
+Qed.
+Print Assumptions c04_lpconvert_of_written_aspif.
+
+(* non-vacuity: a program with a disjunction, a choice, an integrity constraint (false atom 6), a weight rule, a minimize statement with a
+   negative weight, two symbols and a compute statement satisfies the hypotheses of c04_lpconvert_roundtrip_aspif; the pipelines on concrete
+   texts: an accepted conversion, a reader error in the middle (the first rule is already written), a consumer refusing a directive
+   (project is not expressible in smodels format: error at the line of that directive), a cyclic theory term under -t (error, nothing written),
+   lpconvert refusing an unrecognised first byte. *)
+Definition ex_p : list call :=
+  [CInit false; CBegin; CRule 0 [1; 2] [3; -4]; CRule 1 [2; 3] []; CRule 0 [] [1]; CWRule 0 [4] 2 [(1, 1); (-2, 3)];
+   CMin 5 [(1, -2); (3, 0)]; COutput [97] [1]; COutput [98; 40; 49; 41] [2]; CAssume [1; -4]; CEnd].
+Example c04_roundtrip_hypotheses :
+  V.C05.Spec.in_fragment false 6 ex_p = true /\ forallb V.C01.Wf.wf_call (V.C05.Spec.sm_norm 6 ex_p) = true.
+Proof. split; vm_compute; reflexivity. Qed.
+Example c04_pipeline_examples :
+  (* "asp 1 0 0\n1 0 1 1 0 1 -2\n0\n" -> smodels *)
+  V.C04.Pipe.pipe_a2s false [97;115;112;32;49;32;48;32;48;10;49;32;48;32;49;32;49;32;48;32;49;32;45;50;10;48;10] =
+    V.C04.Pipe.POk [49;32;50;32;49;32;49;32;51;10;48;10;48;10;66;43;10;48;10;66;45;10;49;10;48;10;49;10] /\
+  (* "asp 1 0 0\n1 0 1 1 0 0\n1 0 x" : the fact is written, then the reader fails on line 3 *)
+  V.C04.Pipe.pipe_a2s false [97;115;112;32;49;32;48;32;48;10;49;32;48;32;49;32;49;32;48;32;48;10;49;32;48;32;120] =
+    V.C04.Pipe.PErr 3 [49;32;50;32;48;32;48;10] /\
+  (* "asp 1 0 0\n\n3 0\n0\n" : #project refused by the converter at line 3 *)
+  V.C04.Pipe.pipe_a2s true [97;115;112;32;49;32;48;32;48;10;10;51;32;48;10;48;10] = V.C04.Pipe.PErr 3 [] /\
+  (* "asp 1 0 0\n9 2 5 5 0\n9 5 0 5 0\n0\n" : term 5 = 5(), used by a theory atom *)
+  V.C04.ProofsPipe.strip (V.C04.Pipe.pipe_a2t [97;115;112;32;49;32;48;32;48;10;57;32;50;32;53;32;53;32;48;10;57;32;53;32;48;32;53;32;48;10;48;10]) = (2, []) /\
+  V.C04.Pipe.lpconvert 0 [32; 49] = None.
+Proof. repeat split; vm_compute; reflexivity. Qed.
